@@ -909,7 +909,7 @@ func (w *world) stepResponse(sp *spec, c *Cell, rq *miniserver.Client, rid int64
 		}
 		// what L received on its connection (DNS forms); the exchange helper may already have read it
 		absorb := func(p *packet.TransferPacket) {
-			if p.CommandPacket == nil {
+			if p.CommandPacket == nil || w.benignConfigPush("L", p) {
 				return
 			}
 			b := p.CommandPacket.CommandBody
